@@ -1101,6 +1101,10 @@ class Engine:
                     return [(st, Raised(self.make_exc('ZeroDivisionError', node=node)))]
                 if isinstance(r, int):
                     return [(st, vint(r))]
+                if isinstance(op, ast.Div) and y != 0:
+                    fr = Fraction(x, y)
+                    return [(st, vreal(z3.RealVal(str(fr)),
+                                       ival=(z3.IntVal(fr.numerator) if fr.denominator == 1 else None)))]
         if isinstance(op, (ast.Add, ast.Sub, ast.Mult)):
             if both_int:
                 x, y = to_int(a), to_int(b)
@@ -1410,6 +1414,10 @@ class Engine:
             return V('obj', oid=name, z=z3.Const(name, VV.Any))
         if isinstance(kind, str) and kind.startswith('ref:'):
             return V('ref', cls=kind[4:], oid=name)
+        if isinstance(kind, str) and kind.startswith('aref:'):
+            # reference that may alias other 'aref' values (read-only use)
+            return V('ref', cls=kind[5:], oid=name,
+                     extra={'idz': z3.Const(name + '#id', VV.Any)})
         if isinstance(kind, str) and kind.startswith('class:'):
             return V('class', py=kind[6:])
         if isinstance(kind, str) and kind.startswith('opt:'):
